@@ -393,8 +393,10 @@ def explore(prop, pid, args):
         "wall_s": round(wall, 2),
         "violations": len(reported),
     }
-    os.makedirs(os.path.join(VERIF, "evidence"), exist_ok=True)
-    with open(os.path.join(VERIF, "evidence", f"{pid}.json"), "w") as f:
+    # evidence is only what the check saw on /repo itself; runs against a scratch copy (mutant self-tests) write elsewhere
+    evdir = os.path.join(VERIF, "evidence") if os.path.realpath(kernel.REPO) == "/repo" else os.environ.get("VERIF_SCRATCH_EVIDENCE", "/dev/shm/verif_scratch_evidence")
+    os.makedirs(evdir, exist_ok=True)
+    with open(os.path.join(evdir, f"{pid}.json"), "w") as f:
         json.dump(ev, f, indent=1, default=lambda o: kernel.clean_text(repr(o)))
     zero = [k for k, v in ev["coverage"]["probes"].items() if v == 0]
     for name in getattr(prop, "PROBES", []):
